@@ -54,3 +54,27 @@ static std::vector<bool> gen_operand(Rng& g, unsigned n) {
 }
 
 
+
+// value of a posit encoding as a double, computed from the bits by the driver itself (used only to aim
+// native-source generation at the lattice; never to judge).  NaR -> NaN.
+#include <cmath>
+static double posit_bits_to_double(unsigned n, unsigned es, uint64_t bits) {
+	uint64_t mask = (n >= 64) ? ~0ull : ((1ull << n) - 1);
+	bits &= mask;
+	if (bits == 0) return 0.0;
+	if (bits == (1ull << (n - 1))) return NAN;
+	bool neg = (bits >> (n - 1)) & 1;
+	if (neg) bits = (~bits + 1) & mask;
+	int i = (int)n - 2;
+	bool r0 = (bits >> i) & 1;
+	int run = 0;
+	while (i >= 0 && (((bits >> i) & 1) == r0)) { ++run; --i; }
+	int k = r0 ? run - 1 : -run;
+	--i;   // terminator
+	int e = 0;
+	for (unsigned j = 0; j < es; ++j) { e <<= 1; if (i >= 0) { e |= (bits >> i) & 1; --i; } }
+	double f = 1.0, w = 0.5;
+	for (; i >= 0; --i, w *= 0.5) if ((bits >> i) & 1) f += w;
+	double v = std::ldexp(f, k * (1 << es) + e);
+	return neg ? -v : v;
+}
